@@ -7,7 +7,12 @@ Driver streams `C19` (scripted random words) and `C19.stat` (statistical run
 with the real ChaCha8 generator, support only).
 
 `C19` lines: `reset <size>` | `add <v> <word>…` | `rst`; the implementation's
-observation is `len=…;count=…;p=…;used=…;buf=[sorted]`.  The model's `Add` is
+observation is `len=…;count=…;p=…;used=…;buf=[sorted]`.  `pnew <size>` | `padd <v>` drive a counter
+built by the PUBLIC constructor `distinct.NewCounter` (its generator is seeded from crypto/rand
+and cannot be scripted or observed: `used=-`); the harness only emits such histories in the exact
+regime (fewer distinct values than the size), where `C19_exact_regime` says no word is drawn, so
+the results are deterministic and compared exactly; a `padd` on which the MODEL would draw a
+word or run a halving pass is flagged as a generator error.  The model's `Add` is
 run with the scripted words and with a visiting order for the halving pass that
 is *reconstructed from the implementation's resulting buffer* (survivors are
 put at the keep-bit positions, the others at the remove-bit positions).  If the
@@ -26,6 +31,8 @@ def keepOne : Bool := Gen.Distinct.keepOne
 structure St where
   m : Model.Distinct.St := {}
   sp : DistinctCount.Sp := {}
+  /-- the counter was built by the public `NewCounter` (words drawn are not observable) -/
+  pub : Bool := false
 
 /-- order witness: survivors at keep positions, the rest at remove positions -/
 def mkOrder : List Bool → List Nat → List Nat → List Nat
@@ -34,8 +41,8 @@ def mkOrder : List Bool → List Nat → List Nat → List Nat
   | false :: fs, S, y :: N => y :: mkOrder fs S N
   | _, _, _ => []
 
-def fmtObs (s : Model.Distinct.St) (used : Nat) : String :=
-  s!"len={s.len};count={s.count};p={pOf s.k};used={used};buf={fmtNats (isort s.buf)}"
+def fmtObs (s : Model.Distinct.St) (used : Nat) (pub : Bool := false) : String :=
+  s!"len={s.len};count={s.count};p={pOf s.k};used={if pub then "-" else toString used};buf={fmtNats (isort s.buf)}"
 
 def parseObs (impl : String) : DistinctCount.Obs :=
   { len := (field impl "len").toNat?.getD 0
@@ -53,7 +60,21 @@ def step (s : St) (toks : List String) (impl : String) : St × String × String 
   | ["rst"] =>
     let (m, _) := Model.Distinct.step keepOne s.m .reset
     let (sp, v) := DistinctCount.afterReset s.sp o
-    ({ m := m, sp := sp }, fmtObs m 0, v)
+    ({ s with m := m, sp := sp }, fmtObs m 0 s.pub, v)
+  | ["pnew", size] =>
+    let m := Model.Distinct.new (size.toNat?.getD 0)
+    let (sp, v) := DistinctCount.afterReset { size := m.cap } o
+    ({ m := m, sp := sp, pub := true }, fmtObs m 0 true, v)
+  | ["padd", v] =>
+    match v.toNat? with
+    | none => (s, "bad-op", "bad bad-op")
+    | some v =>
+      let (m, out) := Model.Distinct.step keepOne s.m (.add v [] [])
+      let (sp, verdict) := DistinctCount.afterAdd s.sp v o
+      let verdict := if out.used != 0 || out.halved then
+          "bad generator error: padd outside the exact regime (the model draws a word or halves; not deterministic)"
+        else verdict
+      ({ s with m := m, sp := sp }, fmtObs m out.used true, verdict)
   | "add" :: v :: ws =>
     match v.toNat? with
     | none => (s, "bad-op", "bad bad-op")
@@ -69,7 +90,7 @@ def step (s : St) (toks : List String) (impl : String) : St × String × String 
       let order := mkOrder flags surv rest
       let (m, out) := Model.Distinct.step keepOne s.m (.add v words order)
       let (sp, verdict) := DistinctCount.afterAdd s.sp v o
-      ({ m := m, sp := sp }, fmtObs m out.used, verdict)
+      ({ s with m := m, sp := sp }, fmtObs m out.used s.pub, verdict)
   | _ => (s, "bad-op", "bad bad-op")
 
 def stream : Stream := { name := "C19", σ := St, init := {}, step := step }
